@@ -293,6 +293,13 @@ def case_write_input(case):
         kw["template"] = "{lot} {obasis_name}\n{title}\n{charge} {spinmult}\n{geometry}\n"
     if case["i"] % 3 == 0:
         kw["atom_line"] = lambda d, i: f"{int(d.atnums[i])} {d.atcoords[i][0]:.3f}"
+    if case["i"] % 5 in (1, 3):
+        # user keyword fields of every kind a template can refer to: scalars, and dictionaries / arrays whose names coincide with
+        # attributes of the object (the user's value takes the place of the attribute in the template only)
+        kw["template"] = ("{lot} {obasis_name} mem={memory}\n%pal nprocs {extra[nprocs]} end\n# {atcharges[user][0]} {moments[note]}\n"
+                          "{title}\n{charge} {spinmult}\n{geometry}\n")
+        kw.update(memory="2GB", extra={"nprocs": 8}, atcharges={"user": np.array([0.25, -0.25])}, moments={"note": "none"},
+                  one_rdms={}, atmasses=np.ones(3))
     viols = []
     counters = {"dump_calls": 0, "snapshots_compared": 0, "byte_comparisons": 0}
     root = tempfile.mkdtemp(prefix="vf_c09w_")
@@ -318,7 +325,7 @@ def case_write_input(case):
                 viols.append(_v("repeated-dump-differs", f"write_input({prog}): second call wrote different bytes"))
     finally:
         shutil.rmtree(root, ignore_errors=True)
-    return viols, [f"write_input:{prog}:{src}:{sorted(kw)}"], counters, {"prog": prog, "source": src, "kwargs": sorted(kw)}
+    return viols, [f"write_input:{prog}:{src}:{sorted(kw)}:{'extra' if data.extra else 'noextra'}"], counters, {"prog": prog, "source": src, "kwargs": sorted(kw)}
 
 
 def case_json_corpus(case):
